@@ -13,8 +13,23 @@ import (
 	"encoding/json"
 	"fmt"
 	"os"
+	"runtime/debug"
+	"strings"
 	"sync"
 )
+
+// firstAcraFrame extracts the innermost acra function from a stack dump (skipping the harness layer).
+func firstAcraFrame(stack []byte) string {
+	for _, l := range strings.Split(string(stack), "\n") {
+		if strings.HasPrefix(l, "github.com/cossacklabs/acra/") && !strings.Contains(l, "/zz_verif/") && !strings.Contains(l, ".Verif") {
+			if i := strings.LastIndex(l, "("); i > 0 {
+				l = l[:i]
+			}
+			return l
+		}
+	}
+	return "?"
+}
 
 // Model is the replay file written by the checker.
 type Model struct {
@@ -216,6 +231,7 @@ func RunNative(h func()) (outcome string) {
 				return
 			}
 			outcome = fmt.Sprintf("panic:%v", r)
+			fmt.Printf("VERIF-REPLAY-STACK %s\n", firstAcraFrame(debug.Stack()))
 		}
 	}()
 	h()
@@ -223,4 +239,29 @@ func RunNative(h func()) (outcome string) {
 		return "assert:" + Failed[0]
 	}
 	return "pass"
+}
+
+// Tier is 0 for the quick tier and 1 for the thorough tier.
+func Tier() int {
+	if os.Getenv("VERIF_TIER") == "thorough" {
+		return 1
+	}
+	return 0
+}
+
+// ReplayMain runs the harness named in the model natively and prints its outcome.
+func ReplayMain(table map[string]func()) {
+	load()
+	if !loaded {
+		fmt.Println("VERIF-REPLAY-OUTCOME nomodel")
+		return
+	}
+	h, ok := table[model.Harness]
+	if !ok {
+		fmt.Printf("VERIF-REPLAY-OUTCOME unknown-harness %s\n", model.Harness)
+		return
+	}
+	out := RunNative(h)
+	fmt.Printf("VERIF-REPLAY-REACHED %v\n", Reached)
+	fmt.Printf("VERIF-REPLAY-OUTCOME %s\n", out)
 }
